@@ -16,7 +16,7 @@ RULE = ("Generated trees/DAGs (plus boundary-injected and masked-undefined cases
         "rounding bounds (8 x reference-AD bound for numeric routes, plus 8 x eps of evaluating the simplified partial "
         "for symbolic routes); Partial/Derivative early and late as_expression() are == with equal repr; "
         "Differential(e).component(v) == Partial(e,v); Differential(e).at(p) == LocatedDifferential(e,p) with equal "
-        "hashes.  Non-trivial = (>= 2 routes returned numbers AND the simplified partial differs from the raw one) OR "
+        "hashes; one derivative object queried at 2-4 points in a row answers like a fresh object each time.  Non-trivial = (>= 2 routes returned numbers AND the simplified partial differs from the raw one) OR "
         "the point is outside the domain; distinct by SHA-1 of (canonical model, point, variable).")
 ASSUMPTIONS = [
     "cases the reference classifies as range/undecided are skipped (an overflow may hit one route and not another)",
@@ -193,6 +193,60 @@ def structural(stats, m, env, var, as_object, case, where, defined):
             stats.count("Differential.at==LocatedDifferential")
 
 
+def check_reuse(stats, m, var, envs, sub="reuse"):
+    """One derivative OBJECT queried at several points in a row ("evaluate your derivative at many x values" is the
+    documented use of compute_early=True): every answer must be what a freshly built object gives at that point."""
+    stats.case()
+    vs = M.variables(m)
+    kinds = [("Partial", False), ("Partial", True), ("Differential", False), ("Differential", True)]
+    if len(vs) <= 1 and (not vs or vs[0] == var):
+        kinds += [("Derivative", False), ("Derivative", True)]
+
+    def make(kind, early):
+        e = build(m)
+        if kind == "Partial":
+            return lib.Partial(e, var, compute_early=early)
+        if kind == "Derivative":
+            return lib.Derivative(e, compute_early=early)
+        return lib.Differential(e, compute_early=early)
+
+    def ask(obj, kind, env, how):
+        P = lib.Point(**env)
+        if kind != "Differential":
+            return obj.at(P)
+        return obj.at(P).component(var) if how == 0 else obj.component_at(var, P) if how == 1 else obj.component(var).at(P)
+    for kind, early in kinds:
+        made = lib.call(lambda: make(kind, early))
+        if made.kind != lib.OBJ:
+            continue
+        trail = []
+        for k, env in enumerate(envs):
+            how = k % 3
+            got = lib.call(lambda: ask(made.value, kind, env, how))
+            fresh_obj = lib.call(lambda: make(kind, early))
+            want = lib.call(lambda: ask(fresh_obj.value, kind, env, how)) if fresh_obj.kind == lib.OBJ else fresh_obj
+            trail.append(f"{M.point_text(env)} -> {got!r}")
+            if lib.OVF in (got.kind, want.kind):
+                continue
+            if got.key() != want.key() and not (got.kind == lib.EXC and want.kind == lib.EXC):
+                case = make_case(sub, m, None, var=var, points=[M.point_to_json(x) for x in envs[:k + 1]])
+                raise violation(ID, sub, f"reuse:{kind}:{'early' if early else 'late'}", case,
+                                f"{kind}(e, compute_early={early}) for d/d{var} of {M.text(m)[:250]} queried in a row: {'; '.join(trail)} - "
+                                f"but a freshly built object gives {want!r} at the last point")
+            stats.count(f"reuse:{kind}:{'early' if early else 'late'}")
+    stats.nontrivial_case(M.digest(M.canon(m), var, [sorted(x.items()) for x in envs]), {"expr": M.text(m)[:300], "variable": var, "points": len(envs)})
+
+
+def make_reuse(stats):
+    @given(st.data())
+    def test(data):
+        names = data.draw(S.name_lists(1, 3))
+        m = data.draw(S.expressions(names, depth=3))
+        envs = [data.draw(S.points(names)) for _ in range(data.draw(st.integers(2, 4)))]
+        check_reuse(stats, m, data.draw(st.sampled_from(names)), envs)
+    return test
+
+
 def make_general(stats):
     @given(st.data())
     def test(data):
@@ -247,10 +301,14 @@ def make_roots(stats):
 def parts(tier):
     n = 6000 if tier == "quick" else 100000
     return [hyp_part("general", make_general, int(n * 0.4)), hyp_part("single", make_single, int(n * 0.2)),
-            hyp_part("edge", make_edge, int(n * 0.25)), hyp_part("roots", make_roots, int(n * 0.15))]
+            hyp_part("edge", make_edge, int(n * 0.25)), hyp_part("roots", make_roots, int(n * 0.15)),
+            hyp_part("reuse", make_reuse, int(n * 0.15))]
 
 
 def replay(case):
+    if case.get("sub") == "reuse":
+        check_reuse(Stats(), case_model(case), case["var"], [M.point_from_json(p) for p in case["points"]])
+        return
     check(Stats(), case_model(case), case_point(case), case["var"], case.get("as_object", False), sub=case.get("sub", "routes"))
 
 
